@@ -454,7 +454,7 @@ def one(rec, hub, seed, tier, i):
 
 def run(rec, hub, tier, seed, shard, nshards, budget):
     register(hub)
-    n = 260 if tier == "quick" else 1500
+    n = 260 if tier == "quick" else 3000
     for kk in range(n):
         if not budget.ok():
             break
